@@ -215,9 +215,9 @@ def handle (iasOfMach : Rat → Int → Rat) (ws : List String) : String :=
     | _ => "BAD-OP"
   | ["demod", nf, den, samples] =>
     let d : Rat := ((den.toNat?).getD 1 : Nat)
-    let buf : List Rat := (samples.splitOn ",").filterMap (fun t => (t.toInt?).map (fun (i : Int) => (i : Rat) / d))
+    let buf : Array Rat := ((samples.splitOn ",").filterMap (fun t => (t.toInt?).map (fun (i : Int) => (i : Rat) / d))).toArray
     let nf0 : Rat := if nf == "-" then 1000000 else rat! nf
-    fmtRes (fun r => fmtMsgs r.1 ++ "|" ++ toString r.2.2.length) (processBuffer nf0 buf)
+    fmtRes (fun r => fmtMsgs r.1 ++ "|" ++ toString r.2.2) (processBuffer nf0 buf)
   | ["trk", ref, calls] => trkOp iasOfMach ref calls
   | "aero" :: fn :: args =>
     let a := args.map floatOfHex
